@@ -33,7 +33,8 @@ MODULES = ["TLX.Props.C02Session"]
 THEOREMS = ["TLX.Props.C02Session." + t for t in (
     "session_total", "session_total_counterexample", "session_total_run", "wrong_keys_export_nothing",
     "key_epoch_tracks_sender", "cid_learning_client_initial", "cid_learning_server_initial", "direction_by_cid",
-    "new_connection_id_direction", "retry_resets", "one_rtt_exact", "handshake_levels_exact")]
+    "new_connection_id_direction", "retry_resets", "one_rtt_exact", "handshake_levels_exact",
+    "damaged_key_phase_advances_epoch")]
 
 ERR = {"IndexError": "index", "KeyError": "key", "AttributeError": "attr", "UnboundLocalError": "unbound",
        "OverflowError": "overflow", "ValueError": "value", "TypeError": "type", "InvalidTag": "invalidtag",
